@@ -162,9 +162,11 @@ fn extract_bound_from_tracking(tracking: Tracking) -> (i64, ChronyClockStatus) {
 
     // Compute the clock error bound *at the time chrony reported the tracking data*. Remember
     // that the root dispersion reported by chrony is at the time the tracking data is
-    // retrieved, not at the time of the last system clock update.
-    let bound_nsec =
-        ((root_delay / 2. + root_dispersion + current_correction) * 1_000_000_000.0).ceil() as i64;
+    // retrieved, not at the time of the last system clock update. The current correction is the
+    // signed offset of the system clock; it is its magnitude that contributes to the bound.
+    let bound_nsec = ((root_delay / 2. + root_dispersion + current_correction.abs())
+        * 1_000_000_000.0)
+        .ceil() as i64;
 
     // Compute the duration since the last time chronyd updated the system clock.
     let duration_since_update = match tracking.ref_time.elapsed() {
